@@ -148,6 +148,7 @@ def check(ctx):
     ctx.attempt(_unpack_lots)
     ctx.attempt(_acreage)
     ctx.attempt(forward.check_all, module_suffixes=('unpack.unpackers', 'tract.tract_parse', 'tract.tract'))
+    ctx.attempt(common.flag_prefix_tests)
     ctx.attempt(lockdown, ctx.repo.func('Tract.parse'), only=('include_lot_divs', 'suppress_lot_divs', 'parse_qq'))
     ctx.attempt(common.embedded_case_consistency, modules=('rgxlib.lots', 'rgxlib.aliquots'))
     ctx.attempt(_chain_language)
